@@ -148,10 +148,6 @@ struct Live {
 }
 
 const WPROP: &str = "w";
-static FIXED: std::sync::atomic::AtomicBool = std::sync::atomic::AtomicBool::new(false);
-fn fixed_on() -> bool {
-    FIXED.load(std::sync::atomic::Ordering::Relaxed)
-}
 
 fn build(spec: &GSpec) -> (Holder, Live) {
     let h = if spec.via_db { Holder::Db(GrafeoDB::new_in_memory()) } else { Holder::Store(LpgStore::new()) };
@@ -892,12 +888,12 @@ fn run_traversal(cx: &mut Ctx, st: &LpgStore, l: &Live, sources: &[u64]) {
         let ps = paths_of(&tp, &df, s, l.nodes.len()).unwrap_or_default();
         cx.cert("bfs_layers", format!("s={}", s), format!("c_layers {} {} {} {} {}", g, s, coq::list(layers.iter().map(|x| zlist(x))), dmap_term(&df).unwrap(), paths_term(&ps)), Some(shadow), format!("{:?}", layers), None);
     }
-    let a = ids(&if fixed_on() { fixed::dfs_all(st) } else { alg::dfs_all(st) });
+    let a = ids(&alg::dfs_all(st));
     let mut as_ = a.clone();
     as_.sort();
     let mut ns = l.nodes.clone();
     ns.sort();
-    cx.cert("dfs_all", String::new(), format!("c_perm {} {}", g, zlist(&a)), Some(as_ == ns && a.len() == ns.len()), format!("{:?}", a), Some(("C19-K5", format!("k_dfs_all {}", g))));
+    cx.cert("dfs_all", String::new(), format!("c_perm {} {}", g, zlist(&a)), Some(as_ == ns && a.len() == ns.len()), format!("{:?}", a), None);
 }
 
 fn same_partition(a: &BTreeMap<u64, u64>, b: &BTreeMap<u64, u64>) -> bool {
@@ -957,10 +953,6 @@ fn run_components(cx: &mut Ctx, st: &LpgStore, l: &Live) {
     cx.cert("topological_sort", String::new(), format!("c_topo {} {} {}", g, term, coq::b(dag)), Some(shadow), format!("{:?} is_dag={}", ts, dag), None);
 }
 
-fn k_graph(l: &Live, unit: bool, k: &str) -> String {
-    format!("{} {}", k, gterm(l, unit))
-}
-
 fn run_mst(cx: &mut Ctx, st: &LpgStore, l: &Live, unit: bool, starts: &[Option<u64>]) {
     let ig = IG::of(l, unit);
     let g = gterm(l, unit);
@@ -1002,19 +994,19 @@ fn run_mst(cx: &mut Ctx, st: &LpgStore, l: &Live, unit: bool, starts: &[Option<u
         tk == edges.len() && tw == w
     };
     // Kruskal
-    let kr = if fixed_on() { fixed::kruskal(st, wp) } else { alg::kruskal(st, wp) };
+    let kr = alg::kruskal(st, wp);
     let sh = shadow_forest(&kr.edges, None) && f_int(kr.total_weight) == Some(ig.msf_weight(None).0);
     match (et(&kr.edges), f_int(kr.total_weight)) {
-        (Some(t), Some(tw)) => cx.cert("kruskal", format!("unit={}", unit), format!("c_msf {} {} {}", g, t, zi(tw)), Some(sh), format!("{:?} total={}", kr.edges.iter().map(|e| (e.0.as_u64(), e.1.as_u64(), e.2.as_u64(), e.3)).collect::<Vec<_>>(), kr.total_weight), Some(("C19-K1", k_graph(l, unit, "k_parallel_diffw")))),
+        (Some(t), Some(tw)) => cx.cert("kruskal", format!("unit={}", unit), format!("c_msf {} {} {}", g, t, zi(tw)), Some(sh), format!("{:?} total={}", kr.edges.iter().map(|e| (e.0.as_u64(), e.1.as_u64(), e.2.as_u64(), e.3)).collect::<Vec<_>>(), kr.total_weight), None),
         _ => cx.brute("kruskal", format!("unit={}", unit), false, "non-integral weight".into(), String::new(), None),
     }
     if let Some(tw) = f_int(kr.total_weight) {
         let idl: Vec<u64> = kr.edges.iter().map(|e| e.2.as_u64()).collect();
-        cx.corr("model-kruskal", format!("unit={}", unit), format!("chk_kruskal {} {} {} && chk_kruskal_fixed {}", g, zlist(&idl), zi(tw), g), Some(format!("show_kruskal {}", g)), format!("{:?}", idl));
+        cx.corr("model-kruskal", format!("unit={}", unit), format!("chk_kruskal {} {} {}", g, zlist(&idl), zi(tw)), Some(format!("show_kruskal {}", g)), format!("{:?}", idl));
     }
     let connected = ig.ucomp_without(None, None) <= 1;
     for &s0 in starts {
-        let pr = if fixed_on() { fixed::prim(st, wp, s0.map(nid)) } else { alg::prim(st, wp, s0.map(nid)) };
+        let pr = alg::prim(st, wp, s0.map(nid));
         let start = s0.or_else(|| {
             let mut a = l.nodes.clone();
             a.sort();
@@ -1029,13 +1021,12 @@ fn run_mst(cx: &mut Ctx, st: &LpgStore, l: &Live, unit: bool, starts: &[Option<u
         let comp: BTreeSet<u64> = l.nodes.iter().copied().filter(|v| labels[v] == labels[&start]).collect();
         let sh = shadow_forest(&pr.edges, Some(&comp)) && f_int(pr.total_weight) == Some(ig.msf_weight(Some(&comp)).0);
         match (et(&pr.edges), f_int(pr.total_weight)) {
-            (Some(t), Some(tw)) => cx.cert("prim", format!("start={:?} unit={}", s0, unit), format!("c_prim {} {} {} {}", g, start, t, zi(tw)), Some(sh), format!("{:?} total={}", pr.edges.iter().map(|e| (e.0.as_u64(), e.1.as_u64(), e.2.as_u64(), e.3)).collect::<Vec<_>>(), pr.total_weight), Some(("C19-K2", k_graph(l, unit, "k_asym")))),
+            (Some(t), Some(tw)) => cx.cert("prim", format!("start={:?} unit={}", s0, unit), format!("c_prim {} {} {} {}", g, start, t, zi(tw)), Some(sh), format!("{:?} total={}", pr.edges.iter().map(|e| (e.0.as_u64(), e.1.as_u64(), e.2.as_u64(), e.3)).collect::<Vec<_>>(), pr.total_weight), None),
             _ => cx.brute("prim", format!("start={:?} unit={}", s0, unit), false, "non-integral weight".into(), String::new(), None),
         }
         if connected {
             let ok = kr.total_weight == pr.total_weight;
-            // the disagreement is a consequence of K1/K2: classified by their union
-            cx.brute("agree-kruskal-prim", format!("start={:?} unit={}", s0, unit), ok, "Kruskal and Prim weights differ on a connected graph".into(), format!("kruskal={} prim={}", kr.total_weight, pr.total_weight), Some(("C19-K2", format!("k_asym {} || k_parallel_diffw {}", g, g))));
+            cx.brute("agree-kruskal-prim", format!("start={:?} unit={}", s0, unit), ok, "Kruskal and Prim weights differ on a connected graph".into(), format!("kruskal={} prim={}", kr.total_weight, pr.total_weight), None);
         }
     }
 }
@@ -1113,13 +1104,13 @@ fn run_structure(cx: &mut Ctx, st: &LpgStore, l: &Live) {
             }
         }
     }
-    let tc = to_btree_u(&if fixed_on() { fixed::triangle_count(st) } else { alg::triangle_count(st) });
+    let tc = to_btree_u(&alg::triangle_count(st));
     let tt = alg::total_triangles(st);
     let cc = alg::clustering_coefficient(st);
-    let ok = tc == tri && (fixed_on() || (tt == total && to_btree_u(&cc.triangle_counts) == tri && cc.total_triangles == total));
-    cx.brute("triangles", String::new(), ok, format!("expected per-node {:?} total {}", tri, total), format!("triangle_count={:?} total_triangles={} clustering.total={}", tc, tt, cc.total_triangles), Some(("C19-K4", format!("k_selfloop {}", g))));
+    let ok = tc == tri && tt == total && to_btree_u(&cc.triangle_counts) == tri && cc.total_triangles == total;
+    cx.brute("triangles", String::new(), ok, format!("expected per-node {:?} total {}", tri, total), format!("triangle_count={:?} total_triangles={} clustering.total={}", tc, tt, cc.total_triangles), None);
     // local clustering coefficient = triangles / C(deg,2) over distinct neighbours other than the node itself
-    let lc = to_btree_f(&if fixed_on() { fixed::local_clustering_coefficient(st) } else { alg::local_clustering_coefficient(st) });
+    let lc = to_btree_f(&alg::local_clustering_coefficient(st));
     let mut lok = lc.len() == ns.len();
     for &v in ns {
         let k = adj[&v].iter().filter(|&&x| x != v).count() as u64;
@@ -1128,7 +1119,7 @@ fn run_structure(cx: &mut Ctx, st: &LpgStore, l: &Live) {
             lok = false;
         }
     }
-    cx.brute("local_clustering", String::new(), lok, "local coefficient differs from triangles / C(k,2)".into(), format!("{:?}", lc), Some(("C19-K4", format!("k_selfloop {}", g))));
+    cx.brute("local_clustering", String::new(), lok, "local coefficient differs from triangles / C(k,2)".into(), format!("{:?}", lc), None);
     // k-core: core(v) = max k such that v lies in a subgraph whose every node has >= k distinct neighbours inside it
     // (a self-loop makes a node its own neighbour, as in the implementation's adjacency sets)
     let mut core: BTreeMap<u64, usize> = BTreeMap::new();
@@ -1147,14 +1138,14 @@ fn run_structure(cx: &mut Ctx, st: &LpgStore, l: &Live) {
             core.insert(v, k);
         }
     }
-    let kc = if fixed_on() { fixed::kcore_decomposition(st) } else { alg::kcore_decomposition(st) };
+    let kc = alg::kcore_decomposition(st);
     let got: BTreeMap<u64, usize> = kc.core_numbers.iter().map(|(k, v)| (k.as_u64(), *v)).collect();
     let maxc = core.values().copied().max().unwrap_or(0);
     let mut k2 = ids(&alg::k_core(st, 2));
     k2.sort();
     let want2: Vec<u64> = core.iter().filter(|(_, c)| **c >= 2).map(|(v, _)| *v).collect();
-    let ok = got == core && kc.max_core == maxc && (fixed_on() || k2 == want2);
-    cx.brute("kcore", String::new(), ok, format!("expected core numbers {:?} max {}", core, maxc), format!("core_numbers={:?} max_core={} k_core(2)={:?}", got, kc.max_core, k2), Some(("C19-K3", format!("k_nonloop_edge {}", g))));
+    let ok = got == core && kc.max_core == maxc && k2 == want2;
+    cx.brute("kcore", String::new(), ok, format!("expected core numbers {:?} max {}", core, maxc), format!("core_numbers={:?} max_core={} k_core(2)={:?}", got, kc.max_core, k2), None);
     // bridges: adjacent pairs whose removal (all edges between them) increases the number of components
     let base = ig.ucomp_without(None, None);
     let mut want: BTreeSet<(u64, u64)> = BTreeSet::new();
@@ -1558,10 +1549,7 @@ fn main() {
     let mut single: Option<(GSpec, u64)> = None;
     let mut i = 0;
     while i < a.rest.len() {
-        if a.rest[i] == "--fixed" {
-            FIXED.store(true, std::sync::atomic::Ordering::Relaxed);
-            i += 1;
-        } else if a.rest[i] == "--graph" {
+        if a.rest[i] == "--graph" {
             single = Some((GSpec::parse(&a.rest[i + 1]), 0));
             i += 2;
         } else {
@@ -1592,425 +1580,4 @@ fn main() {
         }
     }
     out.finish();
-}
-
-// ------------------------------------------------------------------------------------------
-// The five functions with the proposed repairs applied (proposed-fixes/C19-*.diff), copied from
-// the patched sources; used only with --fixed, to confirm that the repairs make the failures go away.
-#[allow(dead_code)]
-mod fixed {
-    use grafeo_adapters::plugins::algorithms::{Control, KCoreResult, MinScored, MstResult, TraversalEvent, UnionFind, dfs_with_visitor};
-    use grafeo_common::types::{EdgeId, NodeId, Value};
-    use grafeo_common::utils::hash::{FxHashMap, FxHashSet};
-    use grafeo_core::graph::Direction;
-    use grafeo_core::graph::lpg::LpgStore;
-    use std::collections::BinaryHeap;
-
-    fn extract_weight(store: &LpgStore, edge_id: EdgeId, weight_prop: Option<&str>) -> f64 {
-        if let Some(prop_name) = weight_prop
-            && let Some(edge) = store.get_edge(edge_id)
-            && let Some(value) = edge.get_property(prop_name)
-        {
-            return match value {
-                Value::Int64(i) => *i as f64,
-                Value::Float64(f) => *f,
-                _ => 1.0,
-            };
-        }
-        1.0
-    }
-
-
-    pub fn kruskal(store: &LpgStore, weight_property: Option<&str>) -> MstResult {
-        let nodes = store.node_ids();
-        let n = nodes.len();
-
-        if n == 0 {
-            return MstResult {
-                edges: Vec::new(),
-                total_weight: 0.0,
-            };
-        }
-
-        // Build node index mapping
-        let mut node_to_idx: FxHashMap<NodeId, usize> = FxHashMap::default();
-        for (idx, &node) in nodes.iter().enumerate() {
-            node_to_idx.insert(node, idx);
-        }
-
-        // Collect all edges with weights (treating as undirected).
-        // Every edge is enumerated exactly once (from its source), so no de-duplication is
-        // needed; parallel and anti-parallel edges must all take part, or a heavier one may
-        // shadow a lighter one.
-        let mut edges: Vec<(f64, NodeId, NodeId, EdgeId)> = Vec::new();
-
-        for &node in &nodes {
-            for (neighbor, edge_id) in store.edges_from(node, Direction::Outgoing) {
-                if node_to_idx.contains_key(&neighbor) {
-                    let weight = extract_weight(store, edge_id, weight_property);
-                    edges.push((weight, node, neighbor, edge_id));
-                }
-            }
-        }
-
-        // Sort edges by weight
-        edges.sort_by(|a, b| a.0.partial_cmp(&b.0).unwrap_or(std::cmp::Ordering::Equal));
-
-        // Initialize Union-Find
-        let mut uf = UnionFind::new(n);
-
-        let mut mst_edges: Vec<(NodeId, NodeId, EdgeId, f64)> = Vec::new();
-        let mut total_weight = 0.0;
-
-        for (weight, src, dst, edge_id) in edges {
-            let i = *node_to_idx.get(&src).unwrap();
-            let j = *node_to_idx.get(&dst).unwrap();
-
-            if uf.find(i) != uf.find(j) {
-                uf.union(i, j);
-                mst_edges.push((src, dst, edge_id, weight));
-                total_weight += weight;
-
-                // MST has n-1 edges
-                if mst_edges.len() == n - 1 {
-                    break;
-                }
-            }
-        }
-
-        MstResult {
-            edges: mst_edges,
-            total_weight,
-        }
-    }
-
-
-    pub fn prim(store: &LpgStore, weight_property: Option<&str>, start: Option<NodeId>) -> MstResult {
-        let nodes = store.node_ids();
-        let n = nodes.len();
-
-        if n == 0 {
-            return MstResult {
-                edges: Vec::new(),
-                total_weight: 0.0,
-            };
-        }
-
-        // Start from the first node or specified start
-        let start_node = start.unwrap_or(nodes[0]);
-
-        // Verify start node exists
-        if store.get_node(start_node).is_none() {
-            return MstResult {
-                edges: Vec::new(),
-                total_weight: 0.0,
-            };
-        }
-
-        let mut in_tree: FxHashMap<NodeId, bool> = FxHashMap::default();
-        let mut mst_edges: Vec<(NodeId, NodeId, EdgeId, f64)> = Vec::new();
-        let mut total_weight = 0.0;
-
-        // Priority queue: (weight, source, target, edge_id)
-        let mut heap: BinaryHeap<MinScored<f64, (NodeId, NodeId, EdgeId)>> = BinaryHeap::new();
-
-        // Start with the first node
-        in_tree.insert(start_node, true);
-
-        // Add edges from start node
-        for (neighbor, edge_id) in store.edges_from(start_node, Direction::Outgoing) {
-            let weight = extract_weight(store, edge_id, weight_property);
-            heap.push(MinScored::new(weight, (start_node, neighbor, edge_id)));
-        }
-
-        // Also consider incoming edges (for undirected behavior)
-        for &other in &nodes {
-            for (neighbor, edge_id) in store.edges_from(other, Direction::Outgoing) {
-                if neighbor == start_node {
-                    let weight = extract_weight(store, edge_id, weight_property);
-                    heap.push(MinScored::new(weight, (other, start_node, edge_id)));
-                }
-            }
-        }
-
-        while let Some(MinScored(weight, (src, dst, edge_id))) = heap.pop() {
-            // An entry may have been pushed from either end of its edge: attach whichever
-            // end is not yet in the tree (skip the entry if both already are).
-            let src_in = *in_tree.get(&src).unwrap_or(&false);
-            let dst_in = *in_tree.get(&dst).unwrap_or(&false);
-            let new_node = match (src_in, dst_in) {
-                (true, false) => dst,
-                (false, true) => src,
-                _ => continue,
-            };
-
-            // Add edge to MST
-            in_tree.insert(new_node, true);
-            mst_edges.push((src, dst, edge_id, weight));
-            total_weight += weight;
-
-            // Add edges from new node
-            for (neighbor, new_edge_id) in store.edges_from(new_node, Direction::Outgoing) {
-                if !*in_tree.get(&neighbor).unwrap_or(&false) {
-                    let new_weight = extract_weight(store, new_edge_id, weight_property);
-                    heap.push(MinScored::new(new_weight, (new_node, neighbor, new_edge_id)));
-                }
-            }
-
-            // Also consider incoming edges
-            for &other in &nodes {
-                if !*in_tree.get(&other).unwrap_or(&false) {
-                    for (neighbor, new_edge_id) in store.edges_from(other, Direction::Outgoing) {
-                        if neighbor == new_node {
-                            let new_weight = extract_weight(store, new_edge_id, weight_property);
-                            heap.push(MinScored::new(new_weight, (other, new_node, new_edge_id)));
-                        }
-                    }
-                }
-            }
-
-            // MST has n-1 edges
-            if mst_edges.len() == n - 1 {
-                break;
-            }
-        }
-
-        MstResult {
-            edges: mst_edges,
-            total_weight,
-        }
-    }
-
-
-    pub fn kcore_decomposition(store: &LpgStore) -> KCoreResult {
-        let nodes = store.node_ids();
-        let n = nodes.len();
-
-        if n == 0 {
-            return KCoreResult {
-                core_numbers: FxHashMap::default(),
-                max_core: 0,
-            };
-        }
-
-        // Build node index mapping
-        let mut node_to_idx: FxHashMap<NodeId, usize> = FxHashMap::default();
-        let mut idx_to_node: Vec<NodeId> = Vec::with_capacity(n);
-        for (idx, &node) in nodes.iter().enumerate() {
-            node_to_idx.insert(node, idx);
-            idx_to_node.push(node);
-        }
-
-        // Build undirected adjacency list and compute degrees
-        let mut adj: Vec<FxHashSet<usize>> = vec![FxHashSet::default(); n];
-        for &node in &nodes {
-            let i = *node_to_idx.get(&node).unwrap();
-            for (neighbor, _) in store.edges_from(node, Direction::Outgoing) {
-                if let Some(&j) = node_to_idx.get(&neighbor) {
-                    adj[i].insert(j);
-                    adj[j].insert(i);
-                }
-            }
-        }
-
-        let mut degree: Vec<usize> = adj.iter().map(|neighbors| neighbors.len()).collect();
-        let mut core = vec![0usize; n];
-        let mut removed = vec![false; n];
-
-        // Find maximum degree for bucket initialization
-        let max_degree = *degree.iter().max().unwrap_or(&0);
-        if max_degree == 0 {
-            return KCoreResult {
-                core_numbers: nodes.iter().map(|&n| (n, 0)).collect(),
-                max_core: 0,
-            };
-        }
-
-        // Buckets for O(1) retrieval of minimum degree vertices
-        let mut buckets: Vec<FxHashSet<usize>> = vec![FxHashSet::default(); max_degree + 1];
-        for (i, &d) in degree.iter().enumerate() {
-            buckets[d].insert(i);
-        }
-
-        let mut max_core_val = 0;
-
-        // Process vertices in order of increasing degree
-        for _ in 0..n {
-            // Find minimum degree bucket
-            let mut min_deg = 0;
-            while min_deg <= max_degree && buckets[min_deg].is_empty() {
-                min_deg += 1;
-            }
-
-            if min_deg > max_degree {
-                break;
-            }
-
-            // Pick a vertex from the minimum degree bucket
-            let v = *buckets[min_deg].iter().next().unwrap();
-            buckets[min_deg].remove(&v);
-            removed[v] = true;
-            // The degrees of the remaining vertices may have dropped below the current level,
-            // but core numbers never decrease along the peeling order.
-            max_core_val = max_core_val.max(min_deg);
-            core[v] = max_core_val;
-
-            // Update degrees of neighbors
-            for &u in &adj[v] {
-                if !removed[u] && degree[u] > 0 {
-                    let old_deg = degree[u];
-                    buckets[old_deg].remove(&u);
-                    degree[u] -= 1;
-                    let new_deg = degree[u];
-                    buckets[new_deg].insert(u);
-                }
-            }
-        }
-
-        let core_numbers: FxHashMap<NodeId, usize> =
-            (0..n).map(|i| (idx_to_node[i], core[i])).collect();
-
-        KCoreResult {
-            core_numbers,
-            max_core: max_core_val,
-        }
-    }
-
-
-    fn build_undirected_neighbors(store: &LpgStore) -> FxHashMap<NodeId, FxHashSet<NodeId>> {
-        let nodes = store.node_ids();
-        let mut neighbors: FxHashMap<NodeId, FxHashSet<NodeId>> = FxHashMap::default();
-
-        // Initialize all nodes with empty sets
-        for &node in &nodes {
-            neighbors.insert(node, FxHashSet::default());
-        }
-
-        // Add edges in both directions (undirected treatment)
-        for &node in &nodes {
-            // Outgoing edges: node -> neighbor
-            for (neighbor, _) in store.edges_from(node, Direction::Outgoing) {
-                // A self-loop does not make a node its own neighbour
-                if neighbor == node {
-                    continue;
-                }
-                if let Some(set) = neighbors.get_mut(&node) {
-                    set.insert(neighbor);
-                }
-                // Add reverse direction for undirected
-                if let Some(set) = neighbors.get_mut(&neighbor) {
-                    set.insert(node);
-                }
-            }
-
-            // Incoming edges: neighbor -> node (ensures we capture all connections)
-            for (neighbor, _) in store.edges_from(node, Direction::Incoming) {
-                if neighbor == node {
-                    continue;
-                }
-                if let Some(set) = neighbors.get_mut(&node) {
-                    set.insert(neighbor);
-                }
-                if let Some(set) = neighbors.get_mut(&neighbor) {
-                    set.insert(node);
-                }
-            }
-        }
-
-        neighbors
-    }
-
-
-    fn count_node_triangles(
-        node_neighbors: &FxHashSet<NodeId>,
-        all_neighbors: &FxHashMap<NodeId, FxHashSet<NodeId>>,
-    ) -> u64 {
-        let neighbor_list: Vec<NodeId> = node_neighbors.iter().copied().collect();
-        let k = neighbor_list.len();
-        let mut triangles = 0u64;
-
-        // For each pair of neighbors, check if they're connected
-        for i in 0..k {
-            for j in (i + 1)..k {
-                let u = neighbor_list[i];
-                let w = neighbor_list[j];
-
-                // Check if u and w are neighbors (completing a triangle)
-                if let Some(u_neighbors) = all_neighbors.get(&u)
-                    && u_neighbors.contains(&w)
-                {
-                    triangles += 1;
-                }
-            }
-        }
-
-        triangles
-    }
-
-
-    pub fn triangle_count(store: &LpgStore) -> FxHashMap<NodeId, u64> {
-        let neighbors = build_undirected_neighbors(store);
-        let mut counts: FxHashMap<NodeId, u64> = FxHashMap::default();
-
-        for (&node, node_neighbors) in &neighbors {
-            let triangles = count_node_triangles(node_neighbors, &neighbors);
-            counts.insert(node, triangles);
-        }
-
-        counts
-    }
-
-
-    pub fn local_clustering_coefficient(store: &LpgStore) -> FxHashMap<NodeId, f64> {
-        let neighbors = build_undirected_neighbors(store);
-        let mut coefficients: FxHashMap<NodeId, f64> = FxHashMap::default();
-
-        for (&node, node_neighbors) in &neighbors {
-            let k = node_neighbors.len();
-
-            if k < 2 {
-                // Cannot form triangles with fewer than 2 neighbors
-                coefficients.insert(node, 0.0);
-            } else {
-                let triangles = count_node_triangles(node_neighbors, &neighbors);
-                let max_triangles = (k * (k - 1)) / 2;
-                let coefficient = triangles as f64 / max_triangles as f64;
-                coefficients.insert(node, coefficient);
-            }
-        }
-
-        coefficients
-    }
-
-
-    pub fn dfs_all(store: &LpgStore) -> Vec<NodeId> {
-        let mut finished = Vec::new();
-        let mut visited: FxHashSet<NodeId> = FxHashSet::default();
-
-        for node_id in store.node_ids() {
-            if visited.contains(&node_id) {
-                continue;
-            }
-
-            dfs_with_visitor(store, node_id, |event| -> Control<()> {
-                match event {
-                    // A node finished by an earlier tree must not be walked again
-                    TraversalEvent::TreeEdge { target, .. } if visited.contains(&target) => {
-                        return Control::Prune;
-                    }
-                    TraversalEvent::Discover(n) => {
-                        visited.insert(n);
-                    }
-                    TraversalEvent::Finish(n) => {
-                        finished.push(n);
-                    }
-                    _ => {}
-                }
-                Control::Continue
-            });
-        }
-
-        finished
-    }
-
 }
